@@ -98,6 +98,37 @@ fn replay_each_ws(a: &mut Args, stale: bool, mut after: impl FnMut(&Qbvh<u32>, &
     true
 }
 
+/// `mixq` / `mixb`: replay with checkpoints (see the module documentation)
+fn mix_run(isq: bool, a: &mut Args) -> String {
+    let k = a.u();
+    let mut cps: Vec<(usize, Aabb, Point<Real>)> = Vec::new();
+    for _ in 0..k { let cut = a.u(); let qb = rd_box(a); let pt = d3::p(a); cps.push((cut, qb, pt)); }
+    let mut segs: Vec<String> = Vec::new();
+    let mut n = 0usize;
+    let ok = replay_each_ws(a, true, |q, cur, _op| {
+        n += 1;
+        for (cut, qb, pt) in &cps {
+            if *cut != n { continue; }
+            let r = catch_unwind(AssertUnwindSafe(|| {
+                if isq {
+                    let mut out = Vec::new();
+                    q.intersect_aabb(qb, &mut out);
+                    { let mut t = vec!["q".to_string()]; t.extend(out.iter().map(|x| x.to_string())); t.push(";".into()); t.join(" ") }
+                } else {
+                    let mut v = BfVisitor { p: *pt, cur };
+                    match q.traverse_best_first(&mut v) {
+                        None => "b none ;".to_string(),
+                        Some((_, id)) => { let c = cur.get(id as usize).map(|b| dist2(pt, b)).unwrap_or(f64::NAN); format!("b {} {} ;", ff(c), id) }
+                    }
+                }
+            }));
+            segs.push(r.unwrap_or_else(|_| "PANIC ;".into()));
+        }
+    });
+    if !ok { segs.push("PANIC ;".into()); }
+    segs.join(" ")
+}
+
 fn fbox(b: &Aabb) -> String { box6(b).iter().map(|x| cf(*x)).collect::<Vec<_>>().join(" ") }
 
 pub fn exec(func: &str, a: &mut Args) -> String {
@@ -212,34 +243,15 @@ pub fn exec(func: &str, a: &mut Args) -> String {
             r.unwrap_or_else(|_| "PANIC".into())
         }
         "mixq" | "mixb" => {
-            let k = a.u();
-            let mut cps: Vec<(usize, Aabb, Point<Real>)> = Vec::new();
-            for _ in 0..k { let cut = a.u(); let qb = rd_box(a); let pt = d3::p(a); cps.push((cut, qb, pt)); }
+            // the replay runs on a watchdog thread: a hang of the real code (never seen on the unchanged tree; a corrupted
+            // tree can make `refit` or a traversal loop forever) is reported as `PANIC hang` after 30 s instead of stalling the run
+            let toks: String = a.t[a.i..].join(" ");
+            a.i = a.t.len();
             let isq = func == "mixq";
-            let mut segs: Vec<String> = Vec::new();
-            let mut n = 0usize;
-            let ok = replay_each_ws(a, true, |q, cur, _op| {
-                n += 1;
-                for (cut, qb, pt) in &cps {
-                    if *cut != n { continue; }
-                    let r = catch_unwind(AssertUnwindSafe(|| {
-                        if isq {
-                            let mut out = Vec::new();
-                            q.intersect_aabb(qb, &mut out);
-                            { let mut t = vec!["q".to_string()]; t.extend(out.iter().map(|x| x.to_string())); t.push(";".into()); t.join(" ") }
-                        } else {
-                            let mut v = BfVisitor { p: *pt, cur };
-                            match q.traverse_best_first(&mut v) {
-                                None => "b none ;".to_string(),
-                                Some((_, id)) => { let c = cur.get(id as usize).map(|b| dist2(pt, b)).unwrap_or(f64::NAN); format!("b {} {} ;", ff(c), id) }
-                            }
-                        }
-                    }));
-                    segs.push(r.unwrap_or_else(|_| "PANIC ;".into()));
-                }
-            });
-            if !ok { segs.push("PANIC ;".into()); }
-            segs.join(" ")
+            let (tx, rx) = std::sync::mpsc::channel();
+            let th = std::thread::Builder::new().stack_size(64 << 20).spawn(move || { let mut a = Args::new(&toks); let _ = tx.send(mix_run(isq, &mut a)); });
+            if th.is_err() { return "PANIC spawn ;".into(); }
+            match rx.recv_timeout(std::time::Duration::from_secs(30)) { Ok(s) => s, Err(_) => "PANIC hang ;".into() }
         }
         _ => "nofn".into(),
     }
